@@ -85,8 +85,8 @@ def theorems_of(prop):
     return out
 
 
-def lean_build(prop, thorough=False):
-    """lake build of the property's theorem module and the driver; axiom audit."""
+def lean_build(prop, thorough=False, extra=()):
+    """lake build of the property's theorem module(s) and the driver; axiom audit."""
     with Lock("lake"):
         extract_tables()
         bad = []
@@ -96,14 +96,18 @@ def lean_build(prop, thorough=False):
                 bad.append("%s: %s" % (f, m.group(0)))
         if bad:
             raise BuildError("forbidden-construct", "\n".join(bad))
-        rc, out = sh(["lake", "build", "SkimModel.Props." + prop, "skimdriver"], cwd=LEAN)
+        rc, out = sh(["lake", "build", "SkimModel.Props." + prop] + ["SkimModel.Props." + e for e in extra] + ["skimdriver"], cwd=LEAN)
         if rc != 0:
             raise BuildError("proof", out[-6000:])
         thms = theorems_of(prop)
+        for e in extra:
+            thms += theorems_of(e)
         os.makedirs(os.path.join(LEAN, ".audit"), exist_ok=True)
         af = os.path.join(LEAN, ".audit", prop + ".lean")
         with open(af, "w") as f:
             f.write("import SkimModel.Props.%s\n" % prop)
+            for e in extra:
+                f.write("import SkimModel.Props.%s\n" % e)
             for t in thms:
                 f.write("#print axioms %s\n" % t)
         rc, out = sh(["lake", "env", "lean", af], cwd=LEAN)
@@ -121,9 +125,10 @@ def lean_build(prop, thorough=False):
             raise BuildError("axioms", json.dumps(dirty))
         checker = "lake build SkimModel.Props.%s && lake env lean .audit/%s.lean  (#print axioms)" % (prop, prop)
         if thorough:
-            rc, out = sh(["lake", "env", "leanchecker", "SkimModel.Props." + prop], cwd=LEAN)
-            if rc != 0:
-                raise BuildError("leanchecker", out[-4000:])
+            for pm in [prop] + list(extra):
+                rc, out = sh(["lake", "env", "leanchecker", "SkimModel.Props." + pm], cwd=LEAN)
+                if rc != 0:
+                    raise BuildError("leanchecker", out[-4000:])
             checker += " && lake env leanchecker SkimModel.Props.%s" % prop
         return thms, audited, checker
 
@@ -312,7 +317,7 @@ def run_property(mod, tier, seed, replay=None):
     except Exception:
         thms = []
     try:
-        thms, audited, checker = lean_build(prop, thorough=(tier == "thorough"))
+        thms, audited, checker = lean_build(prop, thorough=(tier == "thorough"), extra=getattr(mod, "EXTRA_PROPS", ()))
     except BuildError as e:
         proof_err = e
     harness_err = None
@@ -333,56 +338,79 @@ def run_property(mod, tier, seed, replay=None):
         return finish(mod, tier, seed, t0, thms, audited, checker, [], 1, notes, {}, 0)
 
     rng = random.Random(seed)
+    import importlib
+    subs = [importlib.import_module("vlib.props." + n) for n in getattr(mod, "SUBMODULES", [])]
+    known = {k["id"]: k for k in load_known() if k["property"] == prop}
+    state = dict(nviol=0, first_mismatch=None, reported=set(), nshrunk=0)
+    results = []
+    ncases = 0
+
+    def explore(m, cases, stream):
+        strict = getattr(m, "STRICT_MODEL", True)
+        res = []
+        B = 2000
+        for i in range(0, len(cases), B):
+            res.extend(evaluate(prop, cases[i:i + B], m))
+        for idx, r in enumerate(res):
+            kind = failure_kind(r, strict)
+            if kind is None:
+                continue
+            if kind == "model-mismatch":
+                if state["first_mismatch"] is None:
+                    state["first_mismatch"] = (idx, r, m, stream)
+                continue
+            if len(state["reported"]) >= 3 or state["nshrunk"] >= 24:
+                continue       # enough distinct reports / enough failing cases minimised (bounds a failing run)
+            state["nshrunk"] += 1
+            small = shrink(prop, m, r, kind, strict)
+            fid = m.classify(small) if hasattr(m, "classify") else None
+            if fid is not None and fid in known and known[fid]["status"] == "known":
+                known_hits[fid] = small
+                continue
+            sig = fid or small["case"]
+            if sig in state["reported"]:
+                continue
+            state["reported"].add(sig)
+            state["nviol"] += 1
+            path = write_replay(prop, seed, "%s%d" % (stream, idx), dict(
+                kind=kind, stream=stream, case_index=idx, case=small["case"], original_case=r["case"],
+                impl_output=small["impl"], model_output=small["model"],
+                spec_verdict=small["verdict"], finding_class=fid, raw=small.get("raw")))
+            violations.append((path, ""))
+        return res
+
     if replay:
         rp = json.load(open(replay))
         cases = [rp["case"]] if "case" in rp else []
+        stream = rp.get("stream", "")
+        target = mod
+        for sm in subs:
+            if sm.__name__.rsplit(".", 1)[1] == stream:
+                target = sm
+        results = explore(target, cases, stream)
+        ncases = len(cases)
     else:
         n = mod.N_QUICK if tier == "quick" else mod.N_THOROUGH
         if proof_err is not None:
             n *= 5   # intensified search: a proof obligation broke
         cases = corpus_cases(prop) + list(getattr(mod, "CORPUS", [])) + list(mod.gen(rng, tier, n))
-    results = []
-    B = 2000
-    for i in range(0, len(cases), B):
-        results.extend(evaluate(prop, cases[i:i + B], mod))
-    known = {k["id"]: k for k in load_known() if k["property"] == prop}
-    nviol = 0
-    reported_sigs = set()
-    nshrunk = 0
-    first_mismatch = None
-    for idx, r in enumerate(results):
-        kind = failure_kind(r, strict_model)
-        if kind is None:
-            continue
-        if kind == "model-mismatch":
-            if first_mismatch is None:
-                first_mismatch = (idx, r)
-            continue
-        if len(reported_sigs) >= 3 or nshrunk >= 24:
-            continue       # enough distinct reports / enough failing cases minimised (bounds a failing run)
-        nshrunk += 1
-        small = shrink(prop, mod, r, kind, strict_model)
-        fid = mod.classify(small) if hasattr(mod, "classify") else None
-        if fid is not None and fid in known and known[fid]["status"] == "known":
-            known_hits[fid] = small
-            continue
-        sig = fid or small["case"]
-        if sig in reported_sigs:
-            continue
-        reported_sigs.add(sig)
+        results = explore(mod, cases, "")
+        ncases = len(cases)
+        for sm in subs:
+            sn = sm.N_QUICK if tier == "quick" else sm.N_THOROUGH
+            name = sm.__name__.rsplit(".", 1)[1]
+            scases = corpus_cases(prop + "-" + name) + list(sm.gen(rng, tier, sn))
+            results.extend(explore(sm, scases, name))
+            ncases += len(scases)
+    nviol = state["nviol"]
+    if state["first_mismatch"] is not None and nviol == 0:
+        idx, r, m, stream = state["first_mismatch"]
+        small = shrink(prop, m, r, "model-mismatch", getattr(m, "STRICT_MODEL", True))
         nviol += 1
-        path = write_replay(prop, seed, idx, dict(kind=kind, case_index=idx, case=small["case"], original_case=r["case"],
-                                                  impl_output=small["impl"], model_output=small["model"],
-                                                  spec_verdict=small["verdict"], finding_class=fid, raw=small.get("raw")))
-        violations.append((path, ""))
-    if first_mismatch is not None and nviol == 0:
-        idx, r = first_mismatch
-        small = shrink(prop, mod, r, "model-mismatch", strict_model)
-        nviol += 1
-        path = write_replay(prop, seed, idx, dict(kind="model-mismatch", case_index=idx, case=small["case"],
-                                                  impl_output=small["impl"], model_output=small["model"],
-                                                  spec_verdict=small["verdict"],
-                                                  theorem_or_stream="correspondence stream %s (implementation and Lean model disagree; the executable spec accepts the implementation's answer)" % prop))
+        path = write_replay(prop, seed, "%s%d" % (stream, idx), dict(
+            kind="model-mismatch", stream=stream, case_index=idx, case=small["case"],
+            impl_output=small["impl"], model_output=small["model"], spec_verdict=small["verdict"], raw=small.get("raw"),
+            theorem_or_stream="correspondence stream %s%s (implementation and Lean model disagree; the executable spec accepts the implementation's answer)" % (prop, ("/" + stream) if stream else "")))
         violations.append((path, " no-failing-input-found"))
     if proof_err is not None and nviol == 0:
         nviol += 1
@@ -393,24 +421,39 @@ def run_property(mod, tier, seed, replay=None):
         print("KNOWN-FINDING: property=%s %s [%s] case=%s" % (prop, known[fid]["what_fails"], fid, small["case"][:200]))
     for path, suffix in violations:
         print("VIOLATION property=%s replay=%s%s" % (prop, path, suffix))
-    return finish(mod, tier, seed, t0, thms, audited, checker, results, nviol, notes, known_hits, len(cases))
+    return finish(mod, tier, seed, t0, thms, audited, checker, results, nviol, notes, known_hits, ncases, subs)
 
 
-def finish(mod, tier, seed, t0, thms, audited, checker, results, nviol, notes, known_hits, ncases):
+def finish(mod, tier, seed, t0, thms, audited, checker, results, nviol, notes, known_hits, ncases, subs=()):
     prop = mod.ID
     cases = [r["case"] for r in results]
     nt = set()
     hist = {}
+    def _nt(c):
+        for m in [mod] + list(subs):
+            try:
+                if m.nontrivial(c):
+                    return True
+            except Exception:
+                pass
+        return False
     for c in cases:
-        if mod.nontrivial(c):
+        if _nt(c):
             nt.add(hashlib.sha1(c.encode()).hexdigest())
         if hasattr(mod, "histogram_keys"):
-            for k in mod.histogram_keys(c):
-                hist[k] = hist.get(k, 0) + 1
+            try:
+                for k in mod.histogram_keys(c):
+                    hist[k] = hist.get(k, 0) + 1
+            except Exception:
+                hist["other-stream"] = hist.get("other-stream", 0) + 1
     outcome = {}
     for r in results:
-        if getattr(mod, "STRICT_MODEL", True):
-            k = "panic" if r["impl"].startswith("panic") else ("agree" if r["impl"] == r["model"] else "differ")
+        if r["impl"].startswith("panic"):
+            k = "panic"
+        elif r["impl"] == r["model"]:
+            k = "agree"
+        elif r["verdict"] == "ok":
+            k = "spec-ok"
         else:
             k = "verdict:" + r["verdict"].split(":")[0]
         outcome[k] = outcome.get(k, 0) + 1
@@ -424,7 +467,8 @@ def finish(mod, tier, seed, t0, thms, audited, checker, results, nviol, notes, k
             checker_cmd="cd /verif/lean && " + checker if checker else "lake build (failed)",
             trusted_base=TRUSTED + list(getattr(mod, "TRUSTED", [])),
             theorems=thms,
-            evaluations=len(results), distinct_nontrivial=len(nt), rule=mod.RULE,
+            evaluations=len(results), distinct_nontrivial=len(nt),
+            rule=mod.RULE + "".join(" || sub-stream %s: %s" % (m.__name__.rsplit(".", 1)[1], m.RULE) for m in subs),
             traces_validated_against_impl=len(results),
             outcome=outcome, histogram=hist, samples=samples,
             known_findings_reproduced=sorted(known_hits.keys()),
